@@ -117,6 +117,27 @@ def hollow_base_with_start(h0: int, target: bytes, start_height: int, start_ts: 
     return cs2, T
 
 
+def two_root_base(h0: int, target: bytes, start_height: int, start_ts_1: int, start_ts_2: int):
+    """Two trusted tips T1 (head) and T2 at the same height whose never-validated histories differ at
+    start_height (a fork deeper than one retarget period, as far as the retarget rule can see)."""
+    cs1, T1 = hollow_base_with_start(h0, target, start_height, start_ts_1)
+    filler2 = _filler_block(start_ts_2)
+    outs = [Output(4_000_000_000 + i, key((i + 5) % 12).pk) for i in range(8)]
+    cb = Transaction([Input(OutputReference(ZERO32, 0), CoinbaseData(h0, b'base2'))], outs)
+    summ = BlockSummary(h0, ZERO32, consensus.calc_merkle_root_hash([cb]), BASE_TS + 7, target, 0)
+    T2 = Block(BlockHeader(summ, PowEvidence(b'\x58' * 32, b'\x68' * 32, b'\x78' * 32)), [cb])
+    t1, t2 = T1.hash(), T2.hash()
+    base_map = cs1.block_by_height_by_hash[t1]
+    map2 = base_map.set(start_height, filler2).set(h0, T2)
+    cs = CoinState(
+        block_by_hash=cs1.block_by_hash.set(t2, T2),
+        unspent_transaction_outs_by_hash=cs1.unspent_transaction_outs_by_hash.set(t2, uto_apply_block(immutables.Map(), T2)),
+        block_by_height_by_hash=cs1.block_by_height_by_hash.set(t2, map2),
+        heads=cs1.heads.set(t2, T2),
+        current_chain_hash=t1)
+    return cs, T1, T2
+
+
 def genesis_base():
     cs = CoinState.zero()
     return cs, cs.head()
@@ -174,7 +195,7 @@ class Unminable(Exception):
 
 def seal(view: CoinState, height: int, prev: bytes, ts: int, target: bytes, txs, *, merkle=None,
          evidence_height=None, nonce0: int = 0, max_tries: int = 20000, want_below: bool = True,
-         evidence_mut=None, evidence_txs=None):
+         evidence_mut=None, evidence_txs=None, fake_scrypt=None):
     """Compute merkle root and evidence with the repo's constructors and search a nonce so that the
     id is below (or, for a forgery, not below) the target.  evidence_mut(ev)->ev' alters evidence
     after construction (the id then covers the altered evidence)."""
@@ -183,7 +204,12 @@ def seal(view: CoinState, height: int, prev: bytes, ts: int, target: bytes, txs,
     nonce = nonce0
     for _ in range(max_tries):
         summ = BlockSummary(height, prev, mr, ts, target, nonce % (1 << 32))
-        ev = consensus.construct_pow_evidence(view, summ, eh, txs if evidence_txs is None else evidence_txs)
+        if fake_scrypt is not None:
+            # a made-up "scrypt result", everything that depends on it computed consistently from it
+            fake = hashlib.sha256(fake_scrypt + nonce.to_bytes(8, 'big')).digest()
+            ev = consensus.construct_pow_evidence_after_scrypt(fake, view, summ, eh, txs)
+        else:
+            ev = consensus.construct_pow_evidence(view, summ, eh, txs if evidence_txs is None else evidence_txs)
         if evidence_mut is not None:
             ev = evidence_mut(ev)
         hdr = BlockHeader(summ, ev)
